@@ -198,5 +198,83 @@ pub fn for_triples(ctx: &mut Ctx, u: &Universe, lk: &Likely, f0: &mut dyn FnMut(
         }
         ctx.count_n("history-phase: related queries re-asked in random order", (passes * seq.len()) as u64);
     }
+    // Exhaustive single-subtag spaces (both tiers): every well-formed script (26^4), every well-formed region
+    // (26^2 + 10^3) and every 2-3 letter language (26^2 + 26^3), each in a few fixed contexts. A lookup that
+    // hashes, packs or truncates a subtag answers some *unlisted* neighbour with a listed row's data; the CLDR
+    // vocabulary alone (a few hundred subtags) cannot show that.
+    let mut k = 0usize;
+    let mut sbuf = String::with_capacity(4);
+    let (mut ns, mut nr, mut nl) = (0u64, 0u64, 0u64);
+    for a in b'A'..=b'Z' {
+        for b in b'a'..=b'z' {
+            for c in b'a'..=b'z' {
+                for d in b'a'..=b'z' {
+                    k += 1;
+                    if k % n != shard {
+                        continue;
+                    }
+                    sbuf.clear();
+                    sbuf.push(a as char);
+                    sbuf.push(b as char);
+                    sbuf.push(c as char);
+                    sbuf.push(d as char);
+                    for l in ["und", "en", "ar", "zh", "abcde"] {
+                        f(ctx, l, Some(&sbuf), None);
+                    }
+                    f(ctx, "und", Some(&sbuf), Some("US"));
+                    ns += 1;
+                }
+            }
+        }
+    }
+    let mut regions: Vec<String> = vec![];
+    for a in b'A'..=b'Z' {
+        for b in b'A'..=b'Z' {
+            regions.push(format!("{}{}", a as char, b as char));
+        }
+    }
+    for x in 0..1000 {
+        regions.push(format!("{:03}", x));
+    }
+    for (i, rg) in regions.iter().enumerate() {
+        if i % n != shard {
+            continue;
+        }
+        for l in ["und", "en", "zh", "sr", "abcde"] {
+            f(ctx, l, None, Some(rg));
+            f(ctx, l, Some("Latn"), Some(rg));
+        }
+        f(ctx, "und", Some("Cyrl"), Some(rg));
+        f(ctx, "und", Some("Xxxx"), Some(rg));
+        nr += 1;
+    }
+    let mut lbuf = String::with_capacity(3);
+    let mut li = 0usize;
+    for len in [2usize, 3] {
+        let total = 26usize.pow(len as u32);
+        for x in 0..total {
+            li += 1;
+            if li % n != shard {
+                continue;
+            }
+            lbuf.clear();
+            let mut y = x;
+            for _ in 0..len {
+                lbuf.push((b'a' + (y % 26) as u8) as char);
+                y /= 26;
+            }
+            if lbuf == "und" {
+                continue;
+            }
+            f(ctx, &lbuf, None, None);
+            f(ctx, &lbuf, Some("Latn"), None);
+            f(ctx, &lbuf, None, Some("US"));
+            f(ctx, &lbuf, Some("Arab"), Some("PK"));
+            nl += 1;
+        }
+    }
+    ctx.count_n("exhaustive-space: every 4-letter script (26^4 over all shards) in 6 contexts", ns);
+    ctx.count_n("exhaustive-space: every 2-letter / 3-digit region (1676 over all shards) in 12 contexts", nr);
+    ctx.count_n("exhaustive-space: every 2-3 letter language (18252 over all shards) in 4 contexts", nl);
 }
 
